@@ -838,6 +838,9 @@ func runC10(c *Ctx) {
 	// ---------- R5 results pass through ----------
 	checkErrorShapes(c, "R5")
 	c.floor("R5", 40)
+
+	// ---------- R6 the handler that runs is the one the request names ----------
+	checkHandleRequestMatch(c, "R6")
 }
 
 func ptrNamed(p *Program, name string) types.Type {
@@ -846,4 +849,234 @@ func ptrNamed(p *Program, name string) types.Type {
 		return nil
 	}
 	return types.NewPointer(n)
+}
+
+// checkHandleRequestMatch (C10.R6, shared as C02.R7): a handle-carrying READ, WRITE or READDIR is served through
+// Request.call, which routes by the Method the handle was opened with, not by the packet.  For every packet type T
+// and every Method M an open handle can have, the handler I/O reached must be T's own (READ→ReadAt, WRITE→WriteAt,
+// READDIR→ListAt) or none, and the reply type must be legal for T; combinations for which that fails must be refused
+// before Request.call — by a gate in packetWorker whose table is extracted here — and the gate must not refuse a
+// matching combination.
+func checkHandleRequestMatch(c *Ctx, rule string) {
+	p := c.P
+	call := p.Func("(*Request).call")
+	worker := p.Func("(*RequestServer).packetWorker")
+	if call == nil || worker == nil {
+		c.missing(rule, "(*Request).call / packetWorker")
+		return
+	}
+	// 1. Method string -> wrapper
+	wrapperOf := map[string]*ssa.Function{}
+	for _, b := range call.Blocks {
+		iff, ok := b.Instrs[len(b.Instrs)-1].(*ssa.If)
+		if !ok {
+			continue
+		}
+		cmp, ok := iff.Cond.(*ssa.BinOp)
+		if !ok || cmp.Op != token.EQL {
+			continue
+		}
+		s, ok := constString(cmp.Y)
+		if !ok {
+			continue
+		}
+		// first module call returning a responsePacket on the way from the equal-edge
+		seen := map[*ssa.BasicBlock]bool{}
+		var walk func(x *ssa.BasicBlock)
+		walk = func(x *ssa.BasicBlock) {
+			if seen[x] || wrapperOf[s] != nil {
+				return
+			}
+			seen[x] = true
+			for _, in := range x.Instrs {
+				if cl, ok := in.(*ssa.Call); ok {
+					if f := cl.Call.StaticCallee(); f != nil && inModule(f) && f.Signature.Results().Len() == 1 && typeName(f.Signature.Results().At(0).Type()) == "responsePacket" {
+						wrapperOf[s] = f
+						return
+					}
+				}
+			}
+			if iff2, ok := x.Instrs[len(x.Instrs)-1].(*ssa.If); ok {
+				if cmp2, ok := iff2.Cond.(*ssa.BinOp); ok && cmp2.Op == token.EQL {
+					if _, isStr := constString(cmp2.Y); isStr {
+						return
+					}
+				}
+			}
+			for _, sc := range x.Succs {
+				walk(sc)
+			}
+		}
+		walk(b.Succs[0])
+	}
+	// 2. handler I/O of a wrapper for packet type T
+	ioNames := map[string]bool{"ReadAt": true, "WriteAt": true, "ListAt": true}
+	pktParamOf := func(fn *ssa.Function) *ssa.Parameter {
+		for _, pr := range fn.Params {
+			if typeName(pr.Type()) == "requestPacket" {
+				return pr
+			}
+		}
+		return nil
+	}
+	ioFor := func(w *ssa.Function, tname string) (map[string]bool, map[string]bool) {
+		io, replies := map[string]bool{}, map[string]bool{}
+		var blocks map[*ssa.BasicBlock]bool
+		if pp := pktParamOf(w); pp != nil {
+			cases := typeCasesOn(w, pp)
+			// only switches that decide the I/O count: a case body containing handler I/O
+			deciding := false
+			for _, tc := range cases {
+				if tc.Body == nil {
+					continue
+				}
+				for b := range regionOf(w, tc.Body) {
+					for _, in := range b.Instrs {
+						if cc := callOf(in); cc != nil && cc.IsInvoke() && ioNames[cc.Method.Name()] {
+							deciding = true
+						}
+					}
+				}
+			}
+			if deciding {
+				blocks = map[*ssa.BasicBlock]bool{}
+				for _, tc := range cases {
+					if tc.Body != nil && typeName(tc.Asserted) == tname {
+						for b := range regionOf(w, tc.Body) {
+							blocks[b] = true
+						}
+					}
+				}
+			}
+		}
+		for _, b := range w.Blocks {
+			if blocks != nil && !blocks[b] {
+				continue
+			}
+			for _, in := range b.Instrs {
+				if cc := callOf(in); cc != nil && cc.IsInvoke() && ioNames[cc.Method.Name()] {
+					io[cc.Method.Name()] = true
+				}
+				if r, ok := in.(*ssa.Return); ok && len(r.Results) == 1 && blocks == nil {
+					ts, _ := p.valueRespTypes(r.Results[0], 0, map[*ssa.Function]bool{})
+					for t := range ts {
+						replies[t] = true
+					}
+				}
+			}
+		}
+		return io, replies
+	}
+	// 3. the gate in packetWorker: a bool method of the looked-up request applied to the packet, true on the way to call
+	var gate *ssa.Function
+	var site ssa.Instruction
+	for _, s := range p.callersOfStatic(call) {
+		if s.Parent() != worker {
+			continue
+		}
+		cc := callOf(s)
+		fromTable := false
+		for _, l := range leavesOf(cc.Args[0]) {
+			if l.Kind == leafCallResult && calleeName(l.Call) == "getRequest" {
+				fromTable = true
+			}
+		}
+		// the generic handle case passes the interface-typed packet on (FSTAT/FSETSTAT build their own Request)
+		if fromTable {
+			site = s
+		}
+	}
+	if site == nil {
+		c.und(rule, "handle requests reach Request.call", p.Pos(worker.Pos()), "cannot find the call of Request.call on a looked-up request")
+		return
+	}
+	for cv, truth := range edgeConds(site.Block(), nil) {
+		if cl, ok := cv.(*ssa.Call); ok && truth {
+			if f := cl.Call.StaticCallee(); f != nil && inModule(f) && len(cl.Call.Args) == 2 {
+				if b, ok := f.Signature.Results().At(0).Type().Underlying().(*types.Basic); ok && b.Kind() == types.Bool {
+					gate = f
+				}
+			}
+		}
+	}
+	// gate table: packet type -> methods it lets through (nil entry = everything)
+	gateAllows := func(tname, m string) bool {
+		if gate == nil {
+			return true
+		}
+		pp := gate.Params[len(gate.Params)-1]
+		for _, tc := range typeCasesOn(gate, pp) {
+			if tc.Body == nil || typeName(tc.Asserted) != tname {
+				continue
+			}
+			for b := range regionOf(gate, tc.Body) {
+				for _, in := range b.Instrs {
+					if bo, ok := in.(*ssa.BinOp); ok && bo.Op == token.EQL {
+						if s, ok := constString(bo.Y); ok && s == m {
+							return true
+						}
+					}
+				}
+			}
+			return false
+		}
+		return true
+	}
+	if gate != nil {
+		// the table extraction understands only positive string comparisons
+		clean := true
+		eachInstr(gate, func(in ssa.Instruction) {
+			switch x := in.(type) {
+			case *ssa.BinOp:
+				if x.Op == token.NEQ {
+					if _, ok := constString(x.Y); ok {
+						clean = false
+					}
+				}
+			case *ssa.UnOp:
+				if x.Op == token.NOT {
+					clean = false
+				}
+			}
+		})
+		if !clean {
+			c.und(rule, "gate "+fnName(gate), p.Pos(gate.Pos()), "the gate uses negations; its table cannot be extracted")
+			return
+		}
+	}
+	want := map[string]string{"sshFxpReadPacket": "ReadAt", "sshFxpWritePacket": "WriteAt", "sshFxpReaddirPacket": "ListAt"}
+	legal := map[string][]string{"sshFxpReadPacket": {"sshFxpDataPacket", "sshFxpStatusPacket"}, "sshFxpWritePacket": {"sshFxpStatusPacket"}, "sshFxpReaddirPacket": {"sshFxpNamePacket", "sshFxpStatusPacket"}}
+	n := 0
+	for _, tname := range []string{"sshFxpReadPacket", "sshFxpWritePacket", "sshFxpReaddirPacket"} {
+		for _, m := range []string{"Get", "Put", "Open", "List"} {
+			w := wrapperOf[m]
+			key := fmt.Sprintf("%s on a handle opened as %s", strings.TrimSuffix(strings.TrimPrefix(tname, "sshFxp"), "Packet"), m)
+			if w == nil {
+				c.und(rule, key, p.Pos(call.Pos()), "Request.call has no wrapper for method "+m)
+				continue
+			}
+			n++
+			io, replies := ioFor(w, tname)
+			var ios []string
+			for k := range io {
+				ios = append(ios, k)
+			}
+			sort.Strings(ios)
+			matching := len(io) == 1 && io[want[tname]]
+			allowed := gateAllows(tname, m)
+			switch {
+			case allowed && len(io) > 0 && !matching:
+				c.bad(rule, key, p.Pos(w.Pos()), fmt.Sprintf("the request is routed to %s, which calls the handler object's %s: the wrong handler runs for this request and the reply has the wrong type or a false success (e.g. a READ on a file opened for writing writes the zeroed reply buffer into the file and is answered OK)", fnName(w), strings.Join(ios, ",")))
+			case !allowed && matching:
+				c.bad(rule, key, p.Pos(gate.Pos()), "the gate refuses a request that its handle serves")
+			case allowed && len(subset(replies, legal[tname])) > 0:
+				c.bad(rule, key, p.Pos(w.Pos()), fmt.Sprintf("the request may be answered with %s, which is not a legal reply to it", strings.Join(subset(replies, legal[tname]), ",")))
+			case !allowed:
+				c.ok(rule, key, p.Pos(gate.Pos()), "refused by "+fnName(gate)+" before Request.call")
+			default:
+				c.ok(rule, key, p.Pos(w.Pos()), "served by "+fnName(w)+" through "+strings.Join(ios, ",")+" (or answered with an error status)")
+			}
+		}
+	}
+	c.check(n == 12, rule, "packet type × open method combinations", "?", "12 combinations", fmt.Sprintf("%d combinations examined", n))
 }
